@@ -22,7 +22,16 @@ from props import C13 as H
 from props.C13 import L, M, Builder, c_index, c_obs, c_raw, c_tree, doc_leaves, failing, tree_of
 
 COQ_TARGETS = ["props/P_C10.vo", "corr/Corr_C10.vo"]
-PROOF_FILES = ["proofs/ErrScan_proofs.v"]
+PROOF_FILES = ["proofs/ErrScan_proofs.v", "proofs/ErrScan_sync.v"]
+
+
+def pre_build():
+    """regenerate coq/gen/ErrScan_gen.v from /repo's current cel/evaluation.py::check_for_celevalerror
+    (fail-closed translator); proofs/ErrScan_sync.v proves the hand model ErrScan.scan equal to it"""
+    import translate_errscan
+    translate_errscan.main()
+
+
 RULE = ("keys include dotted, empty and colliding dotted-path spellings; (a) Python values (dict/MapType/list/tuple/ListType nests, depth<=5) with CELEvalError objects at random "
         "positions, through check_for_celevalerror; (b) spec documents (nested maps/lists, depth<=4) with 0-2 failing "
         "expressions (35 kinds: arithmetic, missing members, macro bodies, koreo custom functions, errors buried in "
@@ -43,7 +52,10 @@ ASSUMPTIONS = [
     "(C10_rf_no_leak_partial)",
 ]
 TRUSTED = ["in-process wrapper around celpy.InterpretedRunner.evaluate recording per-site raw results",
-           "independent error walker C13.walk_has_error"]
+           "independent error walker C13.walk_has_error",
+           "harness/translate_errscan.py (Python-ast -> Gallina transcription of cel/evaluation.check_for_celevalerror; "
+           "conventions in its docstring: VErr = CELEvalError instances, VMap = MapType/dict, VList = ListType/list/tuple, "
+           "result true = a PermFail is returned, explicit fuel)"]
 
 LOC = H.LOC
 
